@@ -191,6 +191,9 @@ pub struct Agg {
     pub runs_repeat_checked: u64,
     #[serde(default)]
     pub runs_fresh_reference: u64,
+    /// runs executed with environment variables set, emptied or removed
+    #[serde(default)]
+    pub runs_env_changed: u64,
     /// times the baton was taken from a holder found blocked on a lock of the code under test
     #[serde(default)]
     pub takeovers: u64,
@@ -254,6 +257,7 @@ impl Agg {
         self.runs_with_variants += o.runs_with_variants;
         self.runs_repeat_checked += o.runs_repeat_checked;
         self.runs_fresh_reference += o.runs_fresh_reference;
+        self.runs_env_changed += o.runs_env_changed;
         self.takeovers += o.takeovers;
         if self.samples.len() < 4 {
             for s in o.samples {
@@ -390,6 +394,9 @@ fn account(agg: &mut Agg, scen: &Scenario, index: u64, ev: &crate::eval::Eval) {
     }
     if scen.repeat_check {
         agg.runs_repeat_checked += 1;
+    }
+    if !scen.env.is_empty() {
+        agg.runs_env_changed += 1;
     }
     agg.takeovers += res.log.takeovers;
     if ev.peak_bytes > agg.mem_peak_max {
@@ -1569,6 +1576,7 @@ fn write_evidence(
             "runs_with_a_second_document_or_configuration": agg.runs_with_variants,
             "runs_executed_twice_for_repeat_check": agg.runs_repeat_checked,
             "runs_judged_against_references_from_a_fresh_process": agg.runs_fresh_reference,
+            "runs_with_process_environment_changed": agg.runs_env_changed,
             "baton_takeovers_from_blocked_holders": agg.takeovers,
             "worker_processes": workers,
             "worker_deaths_attributed": aborts,
